@@ -143,8 +143,15 @@ do_line (const char *path, char *line)
   OrcProgram *p;
   OrcExecutor ex;
   HRng r;
-  OrcTarget *t = native ? orc_target_get_by_name (path) : NULL;
+  OrcTarget *t = NULL;
+  unsigned tflags = 0; int tflags_given = 0;
   static const int ns[] = { 1, 2, 3, 5, 7, 8, 15, 16, 17, 31, 33, 63, 64, 65, 100, 6, 10, 4 };
+  if (native) {
+    char tn[16]; const char *at = strchr (path, '@');
+    snprintf (tn, sizeof (tn), "%.*s", at ? (int) (at - path) : 15, path);
+    t = orc_target_get_by_name (tn);
+    if (at) { tflags_given = 1; tflags = (unsigned) strtoul (at + 1, NULL, 0); }
+  }
   if (sscanf (line, "%15s %d %23s %23s %23s %d %lu", tpl, &w, o1, o2, o3, &mult, &seed) < 7) return;
   if (!describe (&d, tpl, w, o1, o2, o3, mult)) return;
   hc_begin_line (line);
@@ -165,7 +172,7 @@ do_line (const char *path, char *line)
     if (!cfn) { HEMIT ("\"e\":\"NoCode\",\"plan\":\"%.80s\",\"path\":\"%s\",\"res\":%d", tpl, path, -1); orc_program_free (p); return; }
     res = 0;
   } else
-  res = orc_program_compile_for_target (p, t);
+  res = (tflags_given && t) ? orc_program_compile_full (p, t, tflags) : orc_program_compile_for_target (p, t);
   if (native && !ORC_COMPILE_RESULT_IS_SUCCESSFUL (res)) {
     HEMIT ("\"e\":\"NoCode\",\"plan\":\"%.80s\",\"path\":\"%s\",\"res\":%d", tpl, path, res);
     orc_program_free (p); return;
